@@ -167,7 +167,17 @@ func openState(path string) *discovery.State {
 // execute runs the plan on the real code: the functions the plugin calls per
 // flush (discovery.Run, which persists) and at start-up (State.InitializeState,
 // common.BuildTree) for a restart.
-func execute(p *Plan) ([]BatchObs, Final) {
+func execute(p *Plan) (obs []BatchObs, fin Final, crash string) {
+	defer func() {
+		if r := recover(); r != nil {
+			crash = fmt.Sprint(r)
+		}
+	}()
+	obs, fin = executeUnguarded(p)
+	return
+}
+
+func executeUnguarded(p *Plan) ([]BatchObs, Final) {
 	stateSeq++
 	path := fmt.Sprintf("c15_state_%d.json", stateSeq%4)
 	os.Remove(path)
